@@ -309,6 +309,43 @@ def WFpe (pe : PE) : Bool := pe.frames.all WFframe && WFexc pe.etype pe.msg
 def WFtextA (fas : List (Frame × Option Str)) (etype msg : Str) : Bool :=
   fas.all (fun fa => WFframe fa.1 && WFanchor fa.2) && WFexc etype msg
 
+/-! ## a decidable well-formedness predicate on texts -/
+
+/-- layout-driven reading of the lines after the header, independent of the from_string loop: a frame
+    line is indented by exactly two spaces, its source line by exactly four; the first line that is
+    neither starts the exception part -/
+def readFrames : List Str → List Frame × List Str
+  | [] => ([], [])
+  | l :: rest =>
+    match dropPrefix? ind2 l with
+    | none => ([], l :: rest)
+    | some body =>
+      match matchFrame body with
+      | none => ([], l :: rest)
+      | some fd =>
+        match rest with
+        | [] => ([fd], [])
+        | s :: rest' =>
+          match dropPrefix? ind4 s with
+          | some src => ({ fd with src := src } :: (readFrames rest').1, (readFrames rest').2)
+          | none => (fd :: (readFrames (s :: rest')).1, (readFrames (s :: rest')).2)
+
+def readText (t : Str) : Option PE :=
+  match splitNL t with
+  | first :: rest =>
+    if first = header then
+      if (readFrames rest).2 = [] then none
+      else some ⟨(readFrames rest).1, (excParts (readFrames rest).2).1, (excParts (readFrames rest).2).2⟩
+    else none
+  | [] => none
+
+/-- `t` is a standard-format text (no marker lines, no final newline): the layout reading yields
+    well-formed data whose standard rendering is `t` itself -/
+def WFtext (t : Str) : Bool :=
+  match readText t with
+  | some pe => WFpe pe && toString pe == t
+  | none => false
+
 /-! ## clause 2: Callpoint / TracebackInfo / ExceptionInfo formatting and the interpreter's layout -/
 
 /-- what the interpreter hands over for one traceback entry: co_filename, tb_lineno, co_name and
